@@ -16,6 +16,7 @@
 package cmd
 
 import (
+	"errors"
 	"context"
 	"fmt"
 	"os"
@@ -193,6 +194,13 @@ func (i membershipFactory) New(ctx context.Context) gossip.Task {
 	a := ctx.Value("agent").(*gossip.Agent)
 	b := ctx.Value("batch").(*protocol.BatchSnapshots)
 
+	// the batch was decoded from the gossip network: it may be empty or hold
+	// entries without a snapshot
+	if len(b.Snapshots) == 0 || b.Snapshots[0] == nil || b.Snapshots[0].Snapshot == nil {
+		return func() error {
+			return errors.New("auditor: empty or malformed batch")
+		}
+	}
 	s := b.Snapshots[0]
 
 	QedAuditorBatchesReceivedTotal.Inc()
@@ -220,6 +228,9 @@ func (i membershipFactory) New(ctx context.Context) gossip.Task {
 		if err != nil {
 			i.log.Infof("Unable to get snapshot with version %d from storage: %v", proof.CurrentVersion, err)
 			return err
+		}
+		if storedSnap == nil || storedSnap.Snapshot == nil {
+			return errors.New("auditor: snapshot store returned an empty snapshot")
 		}
 
 		checkSnap := &balloon.Snapshot{
